@@ -17,7 +17,7 @@ Proof.
   - destruct (21 <? mult); [discriminate|]. destruct (_ <? _); [discriminate|].
     cbn [varint_span]. rewrite len_cons.
     destruct (N.eqb_spec (N.land a 128) 0) as [E|E].
-    + inversion H; subst. destruct (a <? 128); lia.
+    + destruct (_ && _); [discriminate|]. inversion H; subst. destruct (a <? 128); lia.
     + apply IHb in H. destruct (land_128_zero_or_big a); [congruence|].
       replace (a <? 128) with false by lia. lia.
 Qed.
@@ -63,17 +63,19 @@ Proof.
       lia.
 Qed.
 
-(* the allocation is the declared Remaining Length, or nothing *)
-Lemma read_alloc_declared : forall v bs,
-  read_alloc v bs = 0 \/
-  exists first r rl r1, bs = first :: r /\ read_varint r = Ok (rl, r1) /\ read_alloc v bs = rl.
+(* what readRemaining asks for before the bytes have arrived: at most 4096 bytes, or no more
+   than the input holds *)
+Theorem read_alloc_bounded : forall v bs, read_alloc v bs <= 4096 \/ read_alloc v bs <= len bs.
 Proof.
   intros. unfold read_alloc, read_packet_full.
-  destruct bs as [|first r]; [left; reflexivity|].
-  destruct (read_varint r) as [[rl r1]| | |] eqn:Ev; try (left; reflexivity).
-  destruct (precheck _) as [[|b]| | |]; try (left; reflexivity).
-  right. exists first, r, rl, r1. split; [reflexivity|]. split; [exact Ev|].
-  destruct (shorter r1 rl); [reflexivity|]. unfold buf_next. reflexivity.
+  destruct bs as [|first r]; [left; cbn; lia|].
+  destruct (read_varint r) as [[rl r1]| | |] eqn:Ev; try (left; cbn; lia).
+  destruct (read_vbi_span _ _ _ _ _ Ev) as [_ Hle].
+  destruct (precheck _) as [[|b]| | |]; try (left; cbn; lia).
+  assert (Ha : (if rl <=? 4096 then rl else N.min rl (len r1)) <= 4096
+               \/ (if rl <=? 4096 then rl else N.min rl (len r1)) <= len (first :: r)).
+  { rewrite len_cons. destruct (N.leb_spec rl 4096); [left; lia|right; lia]. }
+  destruct (shorter r1 rl); [exact Ha|]. unfold buf_next. exact Ha.
 Qed.
 
 (* an accepted packet never made the decoder allocate more than the input holds *)
@@ -86,16 +88,16 @@ Proof.
   destruct (read_vbi_span _ _ _ _ _ Ev) as [Hsp Hle].
   destruct (precheck _) as [[|b]| | |]; try discriminate.
   rewrite shorter_spec in *. destruct (N.ltb_spec (len r1) rl); [discriminate|].
-  unfold buf_next. cbn [snd]. rewrite len_cons. lia.
+  unfold buf_next. cbn [snd]. rewrite len_cons. destruct (rl <=? 4096); lia.
 Qed.
 
-(* allocation proportional to the input: false of the code as it stands *)
+(* allocation in proportion to the bytes supplied *)
 Definition alloc_proportional (v : N) (bs : list N) : Prop := read_alloc v bs <= 64 * len bs + 4096.
-Theorem alloc_proportional_refuted : exists v bs, ~ alloc_proportional v bs.
-Proof. exists 4, [48; 255; 255; 255; 127]. unfold alloc_proportional. vm_compute. intro H. apply H. reflexivity. Qed.
-Theorem alloc_proportional_partial : forall v bs,
-  kf_alloc_upfront v bs = false -> model_stream_alloc 4 v bs <= len bs.
-Proof. intros v bs H. unfold kf_alloc_upfront in H. lia. Qed.
+Theorem alloc_proportional_all : forall v bs, alloc_proportional v bs.
+Proof. intros v bs. unfold alloc_proportional. destruct (read_alloc_bounded v bs); lia. Qed.
+(* the former counterexample: five bytes declaring 268435455 *)
+Lemma alloc_witness_repaired : read_alloc 4 [48; 255; 255; 255; 127] = 0.
+Proof. vm_compute. reflexivity. Qed.
 
 (* ---------------------------------------------------------------- TotalBytes *)
 Lemma pack_fixhdr_len : forall fh l, pack_fixhdr fh = Ok l ->
